@@ -116,13 +116,21 @@ JudgeStart(e) ==
 
 (* the value the object holds obeys every value-level obligation             *)
 JudgeValue(e, o) ==
-    IF e.st # o THEN Bad("value-drifted", <<"C10">>, e.st)
-    ELSE IF ~ObjOK(o) THEN Bad("value-ill-formed", <<"C04", "C10">>, o)
-    ELSE IF ~ObjRoundTrip(o) \/ e.ser # SerLoc(o) THEN Bad("value-text", <<"C04", "C05">>, o)
-    ELSE IF ~e.reparse_ok THEN Bad("value-does-not-reparse", <<"C05">>, o)
-    ELSE IF ~e.ext_reparse_ok THEN Bad("value-extmap-does-not-reparse", <<"C05", "C17">>, o)
-    ELSE IF ~e.parts_ok THEN Bad("value-parts-roundtrip", <<"C17">>, o)
-    ELSE Good(o)
+    (* every value-level obligation is judged on the value the implementation actually holds (e.st), and  *)
+    (* ALL failing obligations are reported: a drift from the model must not hide a broken round trip     *)
+    LET v == e.st
+        wellFormed == ObjOK(v)
+        f1 == IF v # o THEN <<"C10">> ELSE <<>>
+        f2 == IF ~wellFormed THEN <<"C04", "C10">> ELSE <<>>
+        f3 == IF e.ser # SerLoc(v) \/ (wellFormed /\ ~ObjRoundTrip(v)) THEN <<"C04", "C05">> ELSE <<>>
+        f4 == IF ~e.reparse_ok THEN <<"C05">> ELSE <<>>
+        f5 == IF ~e.ext_reparse_ok THEN <<"C05", "C17">> ELSE <<>>
+        f6 == IF ~e.parts_ok THEN <<"C17">> ELSE <<>>
+        all == f1 \o f2 \o f3 \o f4 \o f5 \o f6
+        why == IF f1 # <<>> THEN "value-drifted" ELSE IF f2 # <<>> THEN "value-ill-formed"
+               ELSE IF f3 # <<>> THEN "value-text" ELSE IF f4 # <<>> THEN "value-does-not-reparse"
+               ELSE IF f5 # <<>> THEN "value-extmap-does-not-reparse" ELSE "value-parts-roundtrip"
+    IN IF all = <<>> THEN Good(o) ELSE Bad(why, all, v)
 
 (* comparison of two projected values                                        *)
 JudgeCmp(e, o) ==
